@@ -21,6 +21,10 @@ func (ex *Exec) execLoopCut(s *ast.ForStmt, lc *LoopContract, ord int) ctl {
 			o.Hyps = append(o.Hyps, ctx.tryTerm(u))
 		}
 	}
+	if ex.trace != nil {
+		ex.segs = append(ex.segs, schedSeg{fmt.Sprintf("entry-to-loop%d", ord), ex.trace, ex.hyps(), ex.pathLabel()})
+		ex.trace = Var(fmt.Sprintf("tr@loop%d", ord), STr)
+	}
 	// 2. havoc the loop's frame
 	for _, m := range lc.Modifies {
 		if id, ok := m.(*ast.Ident); ok {
@@ -80,6 +84,9 @@ func (ex *Exec) execLoopCut(s *ast.ForStmt, lc *LoopContract, ord int) ctl {
 	}
 	if s.Post != nil {
 		ex.execStmt(s.Post)
+	}
+	if ex.trace != nil {
+		ex.segs = append(ex.segs, schedSeg{fmt.Sprintf("loop%d-body", ord), ex.trace, ex.hyps(), ex.pathLabel()})
 	}
 	pctx := mk(false)
 	var endHints []*Term
